@@ -79,17 +79,19 @@ def step (_ : Unit) (fields : List String) (impl : String) : Unit × Drv.Reply :
         | none => false
       ((), Drv.Reply.det (showObs reply mo) impl (holds c mo) okI)
     | _, _, _, _ => ((), Drv.Reply.bad)
-  | ["reconnect", reply, _] =>
+  | ["reconnect", reply, _, _] =>
     match parseReply reply with
     | some r =>
       let (me, ms) := modelReconnect r
       let showE : Option Bool → String
         | none => "nil" | some true => "perm" | some false => "err"
-      let mstr := reply ++ " 2 " ++ showE me ++ " " ++ toString ms
+      -- the digest of the SECOND connection: again SHA-1(stream id ++ secret) of that connection alone
+      let d2 := encChars (digest "sid".toUTF8.toList "s".toUTF8.toList)
+      let mstr := reply ++ " 2 " ++ showE me ++ " " ++ toString ms ++ " " ++ d2
       let okI := match impl.splitOn " " with
-        | [_, _, e, a] =>
+        | [_, _, e, a, dg] =>
           (match (if e == "nil" then some none else if e == "perm" then some (some true) else if e == "err" then some (some false) else none), a.toNat? with
-           | some e, some a => holdsReconnect r e a
+           | some e, some a => holdsReconnect r e a && dg == d2
            | _, _ => false)
         | _ => false
       ((), Drv.Reply.det mstr impl (holdsReconnect r me ms) okI)
